@@ -52,6 +52,7 @@ type EnvSpec struct {
 	TMD       []KVSpec `json:"tmd,omitempty"`
 	Reset     bool     `json:"reset"`
 	ResetType string   `json:"reset_type,omitempty"`
+	NilKV     bool     `json:"nil_kv,omitempty"` // a nil entry in the header's metadata list (possible on by-reference transports only)
 	Mut       string   `json:"mut,omitempty"` // which mutation touched this envelope (for the report only)
 }
 
@@ -88,6 +89,9 @@ func buildEnv(s EnvSpec, n int) *Rpc {
 	if s.Header {
 		r.Header = &goatorepo.RequestHeader{Method: pad(s.Method, s.MethodPad), Source: s.Source, Destination: s.Dest, Headers: kvs(s.MD),
 			ProxyRecord: s.Record, ProxyNext: s.Next}
+		if s.NilKV {
+			r.Header.Headers = append(r.Header.Headers, nil)
+		}
 	}
 	switch s.Body {
 	case 1, 6:
@@ -215,6 +219,9 @@ func mutateConv(g *rand.Rand, envs []EnvSpec, ids []uint64) []EnvSpec {
 			kv = KVSpec{K: "key with space", V: "v\x00\n"}
 		default:
 			kv = KVSpec{K: "x-bin", V: ""}
+		}
+		if g.IntN(8) == 0 {
+			e.NilKV = true
 		}
 		n := 1
 		if g.IntN(6) == 0 {
@@ -344,10 +351,19 @@ func execC12Mut(e *Env, pp any) {
 		}
 	}
 	srv := sim.NewServer()
+	byRef := false
+	for _, s := range p.Envs {
+		if s.NilKV {
+			byRef = true // a nil list element cannot be serialised: only an in-process peer can send it
+		}
+	}
 	lc := func(i int) LinkCfg {
 		if i < len(p.Links) {
 			c := p.Links[i]
 			c.Cap = -1
+			if byRef {
+				c.Serialise = false
+			}
 			return c
 		}
 		return LinkCfg{Cap: -1}
@@ -401,6 +417,9 @@ func execC12Mut(e *Env, pp any) {
 			e.Pt("raw.send")
 			for _, m := range strings.Fields(s.Mut) {
 				e.Note("mut." + m)
+			}
+			if s.NilKV {
+				e.Note("mut.nil-metadata-entry")
 			}
 			e.Log("raw.env", "", int(s.ID%1000), s.Mut)
 			if a.Write(rctx, buildEnv(s, i)) != nil {
